@@ -9,27 +9,21 @@ ASSUMPTIONS = ["compositional: the adaptive Huffman layer (GetNextCode + UpdateC
                "so the LZ layer is decided for every code sequence, not only those a particular tree would produce; the tree itself is C15's subject",
                "bit reader: arbitrary valid state over up to 4 symbolic bytes (one-step induction); position prefix table: all 256 prefixes",
                "whole-decoder queries start from the fresh decoder over INLEN symbolic input bytes and compare with a reference LZ decoder (4 KiB space-filled window) driven by the same code choices"]
-OUTSIDE = ["the composition of the real 314-symbol tree with the LZ layer in one query (a single code on the real tree did not finish: three 627/941-entry tables indexed symbolically)",
+OUTSIDE = ["DecompressCode / GetData / GetInternalBuffer / FillDecompressBuffer, i.e. the LZ window layer and the drain interfaces: the 4 KiB window object defeats the encoding (see lib/props/C04.py for the measurements); "
+           "only the bit reader, the position prefix table and (in C15) the Huffman tree are decided",
+           "the composition of the real 314-symbol tree with the LZ layer in one query (a single code on the real tree did not finish: three 627/941-entry tables indexed symbolically)",
            "inputs longer than INLEN bytes end-to-end (the number of codes grows with the input); drain sequences longer than two GetData calls / three GetInternalBuffer calls; the refill path after 4034 buffered bytes",
            "encoder-produced streams (no encoder exists in the library); VolFile::ExtractFileLzh (same GetInternalBuffer loop, over the file model) is not run"]
-LEVEL_TEXT = ("Bounded model checking of the real HuffLZ and BitStreamReader code against independent descriptions: MSB-first zero-padded bit order, the LZHUF position prefix table, and a reference LZ window decoder; "
-              "the Huffman layer is abstracted by the contract proved in C15, which makes every code sequence symbolic.")
+LEVEL_TEXT = ("PARTIAL: bounded model checking of the two leaf components of the decoder against independent descriptions - the bit reader (one-step induction: MSB-first, zero-padded past the end, never outside its buffer) "
+              "and the LZHUF position prefix table (all 256 prefixes); the adaptive Huffman tree is C15. The LZ window layer and the drain interfaces could not be decided within the solver budget and are not claimed.")
 LEVEL_NOTE = "Native replay uses the same harness with the real Huffman layer disabled only in the solver; counterexamples of stubbed queries are replayed through the generated code when they cannot be replayed natively."
 
 
 def queries(tier):
     qs = [Query("offset_modifiers", "C04_lzh.cpp", "h_offset_modifiers", {}, unwind=70, desc="GetOffsetModifiers for all 256 prefixes equals the LZHUF position table; 9..14 bits per position, upper part < 64"),
           Query("bitreader_step", "C04_lzh.cpp", "h_bitreader_step", {}, unwind=12, desc="ReadNextBit / ReadNext8Bits from an arbitrary valid BitStreamReader state over <= 4 symbolic bytes: MSB-first bits, zeros past the end, no read outside the buffer")]
-    # The LZ-layer queries below need more than 30 minutes each on this machine (measured 2026-10-03: still running after 20 minutes at
-    # 2-8 GB); they are in the thorough tier only, with a one-hour cap, and are reported inconclusive when they hit it.
-    if tier == "quick":
-        return qs
-    for w in (0, 4070):
-        qs.append(Query("decompress_code_w%d" % w, "C04_lzh.cpp", "h_decompress_code", {"WIDX": w}, unwind=70, unwindset={"__vf_libc_memcmp.0": 4100}, timeout=3600, redirects=STUBS, native=False, fs_array=64,
-                        desc="one DecompressCode with an arbitrary code < 314 from an arbitrary 4 KiB window at write index %d: window equals the reference decoder's window, write index advances by 1 or code-253 modulo 4096" % w))
-    for inlen, drain in ((1, 0), (2, 0), (2, 1), (2, 2)):
-        qs.append(Query("decode_in%d_drain%d" % (inlen, drain), "C04_lzh.cpp", "h_decode", {"INLEN": inlen, "DRAIN": drain, "OUTCAP": 60 * 8 * inlen + 8}, unwind=60 * 8 * inlen + 24, timeout=3600, redirects=STUBS, native=False, fs_array=64,
-                        unwindset={"_ZN10OP2Utility7Archive6HuffLZ20FillDecompressBufferEv.0": 8 * inlen + 2, "_ZN10OP2Utility7Archive6HuffLZ14DecompressCodeEv.0": 62,
-                                   "_ZN10OP2Utility7Archive6HuffLZ7GetDataEPcm.0": 4},
-                        desc="fresh decoder over %d symbolic input byte(s), every code sequence: output via %s equals the reference LZ decoder's, nothing written past the caller's buffer" % (inlen, ["one GetData call", "two GetData calls (symbolic split)", "GetInternalBuffer"][drain])))
+    # NOT RUN (kept in harness/C04_lzh.cpp: h_decompress_code, h_decode): every query that puts the 4 KiB window of the real HuffLZ object
+    # under symbolic execution exceeded the budget - DecompressCode from an arbitrary window: symex 130 s, 242 k steps, SAT not finished
+    # after 30 min at 8 GB (also with a concrete patterned window, concrete write index, field sensitivity 64 and 8192); whole decoder over
+    # 1 input byte with the Huffman layer stubbed: no verdict in 30 min.  These parts of the property are outside the claim.
     return qs
